@@ -42,7 +42,7 @@ type c13Case struct {
 	Ops   []c13Op `json:"ops"`
 }
 
-var c13Faults = []string{"", "", "", "unknown-state", "other-instance-state", "state-of-other-jar", "refuse", "no_id_token", "bad_sig", "alg_none", "hs256_secret", "wrong_iss", "wrong_aud", "expired", "expired_20s", "expired_5s", "no_username", "nonstring_username"}
+var c13Faults = []string{"", "", "", "state-is-client-address", "unknown-state", "other-instance-state", "state-of-other-jar", "refuse", "no_id_token", "bad_sig", "alg_none", "hs256_secret", "wrong_iss", "wrong_aud", "expired", "expired_20s", "expired_5s", "no_username", "nonstring_username"}
 
 func genC13(t *rapid.T) c13Case {
 	c := c13Case{Store: rapid.SampledFrom([]string{"cookie", "file"}).Draw(t, "store")}
@@ -147,6 +147,8 @@ func runC13(c c13Case) *Violation {
 			case "":
 			case "unknown-state":
 				useState, good = "00112233445566778899aabbccddeeff", false
+			case "state-is-client-address": // never issued as a state, though the gateway knows the value well
+				useState, good = "127.0.0.1", false
 			case "other-instance-state":
 				ob := newBrowser()
 				s2, _, _ := ob.beginLogin(other, "/connect")
@@ -382,6 +384,22 @@ func TestC13_IDENT(t *testing.T) {
 			for k, v := range oa {
 				if !reflect.DeepEqual(ga[k], v) {
 					return viol("c13/identity-not-restored", "step %d: attribute %q restored as %v, stored %v", step, k, ga[k], v)
+				}
+			}
+			// "restored unchanged" also means: it goes on behaving like the stored one. The same later update (a second
+			// login on the same session names another user) applied to a copy of the stored identity and to the restored
+			// one must leave them equal.
+			oc := identity.NewUser()
+			if b2, err := o.Marshal(); err == nil && oc.Unmarshal(b2) == nil {
+				nn := "renamed-" + fmt.Sprint(step)
+				ref := identity.NewUser()
+				ref.SetUserName(o.UserName())
+				ref.SetDisplayName(c.Users[idx].Display) // as the case set it ("" = never set)
+				ref.SetUserName(nn)
+				got.SetUserName(nn)
+				if got.UserName() != ref.UserName() || got.DisplayName() != ref.DisplayName() {
+					return viol("c13/identity-not-restored/after-update", "step %d: identity %d (display name %q) restored, then renamed to %q: it is now {user=%q display=%q}, an identity built the same way without the session round trip is {user=%q display=%q}",
+						step, idx, c.Users[idx].Display, nn, got.UserName(), got.DisplayName(), ref.UserName(), ref.DisplayName())
 				}
 			}
 		}
